@@ -1,0 +1,28 @@
+//go:build verif
+
+package acme
+
+// Contracts for govc (/verif). Comments only.
+
+// The pool of unused nonces: a nonce handed out is one the pool held and is
+// gone from it afterwards (so no nonce is handed out twice unless the server
+// sends it again); nothing else leaves the pool.
+//@ func (*Client).popNonce
+//@ props C50
+//@ modifies heap
+//@ ensures implies(old(len(c.nonces)) > 0, result1 == nil && old(inmap(c.nonces, result0)) && !inmap(c.nonces, result0) && len(c.nonces) == old(len(c.nonces)) - 1)
+//@ canary ensures implies(old(len(c.nonces)) > 0, inmap(c.nonces, result0))
+
+//@ func (*Client).clearNonces
+//@ props C50
+//@ modifies heap
+//@ ensures len(c.nonces) == 0
+
+//@ func nonceFromHeader
+//@ pure
+
+//@ func (*Client).addNonce
+//@ props C50
+//@ modifies heap
+//@ ensures len(c.nonces) <= max(old(len(c.nonces)), 100)
+//@ ensures len(c.nonces) >= old(len(c.nonces)) && len(c.nonces) <= old(len(c.nonces)) + 1
